@@ -18,12 +18,12 @@ class TLCError(Exception):
     pass
 
 
-def run_tlc(module, cfg, env=None, workers=1, timeout=900, extra=(), heap="2g", cwd=SPEC):
+def run_tlc(module, cfg, env=None, workers=1, timeout=900, extra=(), heap="2g", cwd=SPEC, jopts=()):
     """Run TLC on spec/<module>.tla with spec/<cfg>.  Returns dict(out, states, distinct, wall, rc)."""
     meta = os.path.join("/dev/shm" if os.path.isdir("/dev/shm") else RUN, "lsf-tlc-" + uuid.uuid4().hex[:10])
     os.makedirs(meta, exist_ok=True)
     gc = ["-XX:+UseParallelGC"] if workers > 1 else ["-XX:+UseSerialGC", "-XX:ActiveProcessorCount=2"]
-    cmd = ["java"] + gc + ["-Xmx" + heap, "-Xss16m", "-cp", JAR, "tlc2.TLC",
+    cmd = ["java"] + gc + list(jopts) + ["-DTLA-Library=" + SPEC, "-Xmx" + heap, "-Xss16m", "-cp", JAR, "tlc2.TLC",
            "-workers", str(workers), "-metadir", meta, "-noGenerateSpecTE", "-config", cfg] + list(extra) + [module]
     e = dict(os.environ)
     e.update(env or {})
